@@ -2,7 +2,7 @@
    Property theorems only: each is closed by [exact] of a lemma proved in Refl/. *)
 From Coq Require Import List Arith NArith.
 Import ListNotations.
-From Muscle Require Import Gen.Consts Refl.Index Refl.IndexProofs Refl.IndexModel Refl.IndexModelProofs Refl.IndexWitness.
+From Muscle Require Import Gen.Consts Refl.Index Refl.IndexProofs Refl.IndexModel Refl.IndexModelProofs Refl.IndexRunProofs Refl.IndexWitness.
 
 (* For every history (any number of sessions, any list of steps, each step one command or a batch of commands of
    one session: ordered inserts, reorders, plain sets, removals, subtree clones, subscriptions/unsubscriptions/
@@ -12,6 +12,13 @@ Theorem C13_index_inv : forall n steps p,
   NoDup (index_at t p) /\ forall k, In k (index_at t p) -> has_node t (p ++ [k]) = true.
 Proof. exact index_inv. Qed.
 Print Assumptions C13_index_inv.
+
+(* the same while a command is being handled (before the push that follows it) *)
+Theorem C13_index_inv_mid : forall n steps s c p, s < st_n (run cfg_fixed n steps) ->
+  let t := st_tree (handle cfg_fixed (run cfg_fixed n steps) s c) in
+  NoDup (index_at t p) /\ forall k, In k (index_at t p) -> has_node t (p ++ [k]) = true.
+Proof. exact index_inv_mid. Qed.
+Print Assumptions C13_index_inv_mid.
 
 (* ... and at every quiescent point every subscriber's replica -- obtained by replaying, from nothing, everything
    that was delivered to it for that node since it subscribed: the snapshot, then the updates -- is exactly the
